@@ -6,7 +6,7 @@
    every terminating run. *)
 From Coq Require Import List Arith Bool.
 Import ListNotations.
-From Cb Require Import C06.Model C06.Prims C06.Refine C06.Once C06.SpecLaws C06.Witness.
+From Cb Require Import C06.Model C06.Prims C06.Refine C06.Once C06.SpecLaws C06.Witness C06.Fixed.
 
 (* ---- refinement, for the fragment on which it holds (safe_prog = the avoidance predicate of the three
    known findings). Missing for the full statement: programs with a scope that registers both objects
@@ -117,6 +117,20 @@ Theorem stacks_balanced_refuted : exists p fuel st t,
   mrun fuel p = Some (true, st) /\ srun fuel p = Some (true, t) /\ tr st = t /\ dts st = [].
 Proof. exists wmain, 20. destruct wmain_run as [A B]. do 2 eexists. repeat split; eauto. Qed.
 Print Assumptions stacks_balanced_refuted.
+
+(* ---- the three repairs proposed in notes/C06.md are sufficient: the machine with (#43) defers popped
+   before destructors in pop_scope/pop_destructor_scope, (#11) execute_pre_return_cleanup clearing the
+   innermost lists instead of popping the levels, (#44) loops closing their defer level on a return -
+   Fixed.v: fexec/frun - refines the Spec for ALL programs and every fuel.  (frun is a model of the
+   REPAIRED code, not of the pinned code; the repaired C++ was compared with it in a scratch build.) *)
+Theorem repaired_machine_refines_spec : forall p fuel,
+  match srun fuel p with
+  | None => frun fuel p = None
+  | Some (true, t) => frun fuel p = Some (true, mk [] [[]] 1 t)
+  | Some (false, t) => exists st, frun fuel p = Some (false, st) /\ tr st = t
+  end.
+Proof. exact fixed_run_ref. Qed.
+Print Assumptions repaired_machine_refines_spec.
 
 (* non-vacuity: a safe program using every construct runs to completion on the machine *)
 Example safe_example : safe_prog wsafe = true /\ exists st, mrun 40 wsafe = Some (true, st) /\
